@@ -450,7 +450,7 @@ impl<'l, F: AsFd> Async<'l, F> {
         dispatcher
 //@ endslice
 
-//@ slice src/io.rs / impl Async<'l, F> / fn new :: stmts <<if let Err(err) = unsafe { inner.register(&dispatcher) }>> .. <<dispatcher.borrow_mut().is_registered = true;>> props=C15,C16,C17 name=Async::new::register_step
+//@ slice src/io.rs / impl Async<'l, F> / fn new :: stmts <<if let Err(err) = unsafe { inner.register(&dispatcher) }>> .. <<dispatcher.borrow_mut().is_registered =>> props=C15,C16,C17 name=Async::new::register_step
 //@ rw R10 * <<dispatcher.borrow_mut()>> => <<disp_cell>>
 //@ sig
     /// S1 slice of Async::new: the statement that registers the freshly built dispatcher and cleans up if that fails,
